@@ -343,6 +343,7 @@ type Script struct {
 	declared map[string]bool
 	asserts  []string
 	counter  int
+	binders  int // > 0 while a contract quantifier body (or a spec body) is being evaluated
 	// consts: name -> sort, for model extraction
 	consts     map[string]string
 	seenAssert map[string]bool
@@ -407,6 +408,11 @@ func sanitize(s string) string {
 
 func (s *Script) Assert(t Term) {
 	if t.S == "true" {
+		return
+	}
+	if s.binders > 0 && strings.Contains(t.S, "?") {
+		// evaluated under a quantifier binder: the fact may mention bound variables (named x?N) and cannot be
+		// asserted globally; dropping it only loses information
 		return
 	}
 	if len(t.S) < 200 {
